@@ -67,9 +67,14 @@ def wiring(ctx: Ctx, rule="R-C11-WIRING") -> None:
                   f"{init.short()} takes {params}: the positional hand-over from get_consumer no longer matches", instance=f"{q.split('.')[-1]}: parameter order")
         if q == C.CONS:
             continue
-        st = {dotted(t): unparse(n.value) for n in ast.walk(init.node) if isinstance(n, ast.Assign) for t in n.targets}
+        def sv(attr):
+            v = C.stored_value(init, attr)  # single assignment, or the two arms of an if/else as one conditional expression
+            t3 = C.negate_aware_ifexp(v) if v is not None else None
+            return "" if v is None else (unparse(v) if t3 is None else f"{unparse(t3[1])} if {unparse(t3[0])} else {unparse(t3[2])}")
+
+        st = {"self.queue_name": sv("self.queue_name"), "self.topics": sv("self.topics"), "self.category": sv("self.category")}
         okq = st.get("self.queue_name") == "queue_name"
-        okt = st.get("self.topics") in ("topics", "frozenset(topics) if topics is not None else frozenset()", "frozenset(topics)", "frozenset() if topics is None else frozenset(topics)")
+        okt = st.get("self.topics") in ("topics", "frozenset(topics)", "frozenset() if topics is None else frozenset(topics)")
         okc = st.get("self.category") == "category"
         ctx.check(okq and okt and okc, rule, init, f"{init.short()} keeps queue, topics and category", "stored as given",
                   f"{init.short()} stores queue_name={st.get('self.queue_name')}, topics={st.get('self.topics')}, category={st.get('self.category')}", instance=f"{q.split('.')[-1]}: fields")
@@ -165,7 +170,9 @@ def filters(ctx: Ctx, rule="R-C11-FILTER") -> None:
         if not (isinstance(e, ast.BoolOp) and isinstance(e.op, ast.Or) and len(e.values) == 2):
             return False
         a, b = e.values
-        return isinstance(a, ast.UnaryOp) and isinstance(a.op, ast.Not) and dotted(a.operand) == pfx and isinstance(b, ast.Call) and isinstance(b.func, ast.Attribute) \
+        no_filter = (isinstance(a, ast.UnaryOp) and isinstance(a.op, ast.Not) and dotted(a.operand) == pfx) or \
+            (isinstance(a, ast.Compare) and isinstance(a.ops[0], ast.Eq) and unparse(a.left) == f"len({pfx})" and C.is_const(a.comparators[0], 0))
+        return no_filter and isinstance(b, ast.Call) and isinstance(b.func, ast.Attribute) \
             and b.func.attr == "startswith" and isinstance(b.func.value, ast.Name) and len(b.args) == 1 and dotted(b.args[0]) == pfx
 
     ok = len(tests) == 1 and filter_test(tests[0]) and \
